@@ -25,6 +25,8 @@ CLAIMED = {
             "4.C10"),
     "C11": ("contract proof: BaseEngine.start two-case post, SyncEngine.start, activate_initial_state, empty-queue no-op clauses of processing_loop, __initial__ branch of _trigger",
             "4.C11"),
+    "C06": ("Owicki-Gries outline over the contracts of put / try-acquire / popleft / release: interference obligations per role for the asyncio (await-atomic, AST-scanned premises) and thread models; the thread 'stranded' obligation is a recorded finding with a deterministic two-thread witness",
+            "4.C06"),
     "C07": ("contract proof: two loop invariants + pointwise post of SignatureAdapter.bind_expected against a spec function from the property; Event.__call__ reserved-name filter; extended_kwargs overlay; cache-key lemma (recorded finding)",
             "4.C07"),
     "C08": ("contract proof for the closure layer (custom_and/or/not, comparators, constants vs Python semantics incl. short-circuit order), guard conjunction and CallbacksRegistry.check; BOUNDED stand-in (exhaustive <=4 tokens) for the regex/tokenizer text->AST layer",
